@@ -36,6 +36,13 @@ int rng_range(rng_t *r, int lo, int hi) { return hi <= lo ? lo : lo + (int)rng_b
 int rng_chance(rng_t *r, int num, int den) { return (int)rng_below(r, (uint32_t)den) < num; }
 int rng_pick(rng_t *r, const int *vals, int n) { return vals[rng_below(r, (uint32_t)n)]; }
 
+int sim_tier_scale(void)
+{
+    static int s;
+    if (!s) { const char *t = getenv("SIM_TIER"); s = (t && !strcmp(t, "thorough")) ? 2 : 1; }
+    return s;
+}
+
 /* ------------------------------------------------------------------ plan */
 const char *fo_names[FO_NMAX] = { "FULL", "SHORT", "EINTR", "EAGAIN", "EIO", "EMFILE", "ENOENT",
                                   "ECONNREFUSED", "ECONNABORTED", "EADDRINUSE", "EPIPE", "EACCES" };
